@@ -434,7 +434,10 @@ fn c09_pass(sink: &mut Sink, rng: &mut Rng, thorough: bool) {
         from_moc2(RangeMOC2::<u64, Time<u64>, u64, Hpx<u64>>::from_ranges_and_fixed_depth_cells(DT_(), DS, aobs.iter().map(|(t, s)| (t.clone(), *s)), Some(cap)))
       }));
       sink.count("path:ranges-cells-builder");
-      match res { Err(_) => sink.emit(&op, &panic_answer(), true), Ok(out) => { sink.emit(&op, &bits_of(&out), nobs > 1); } }
+      match res { Err(_) => sink.emit(&op, &panic_answer(), true), Ok(out) => { sink.emit(&op, &bits_of(&out), nobs > 1);
+        // the ST-MOC built must itself be VALID (elements in time order, pairwise disjoint in time: what the library's own
+        // lookups rely on), whatever the capacity of the buffer
+        if !out.is_empty() { sink.emit(&format!("st_valid {}", st_txt(&out)), "true", true); } } }
       // (b) streaming builder on (time cell, space cell): unit observations
       let unit_obs: Vec<(u64, u64)> = obs.iter().map(|(t, s)| (t.start, *s)).collect();
       let unit_cells: Vec<(u64, u64)> = unit_obs.iter().map(|(t, s)| (t0() / tunit() + t, *s)).collect();
@@ -455,7 +458,8 @@ fn c09_pass(sink: &mut Sink, rng: &mut Rng, thorough: bool) {
         match res2 { Err(_) => sink.emit(&format!("st_buff {}", btxt), &panic_answer(), true), Ok(a) => sink.emit(&format!("st_buff {}", btxt), &a, nobs > 1) }
       }
       let opu = format!("st_obs {} {} {}", utxt, tp, sp);
-      match res { Err(_) => sink.emit(&opu, &panic_answer(), true), Ok(out) => { sink.emit(&opu, &bits_of(&out), nobs > 1); } }
+      match res { Err(_) => sink.emit(&opu, &panic_answer(), true), Ok(out) => { sink.emit(&opu, &bits_of(&out), nobs > 1);
+        if !out.is_empty() { sink.emit(&format!("st_valid {}", st_txt(&out)), "true", true); } } }
       // (e) (microseconds, lon, lat) observations: an instant inside the time cell, the centre of the space cell
       if cap == 1 || cap == 100 {
         let coos: Vec<(u64, f64, f64)> = unit_obs.iter().map(|(t, s)| { let (lon, lat) = cdshealpix::nested::center(DS, *s); (t0() + t * tunit() + tunit() / 3, lon, lat) }).collect();
